@@ -32,7 +32,7 @@ TNext ==
   \/ IsEvent("OpenSrc") /\ Cur(T.f) /\ T.nofollow = (~KeepSrc /\ ~cfg.force) /\ OpenSrc(R(T.res))
   \/ IsEvent("FstatSrc") /\ Cur(T.f) /\ FstatSrc(R(T.res))
   \/ IsEvent("Fadvise") /\ Cur(T.f) /\ Fadvise(R(T.res))
-  \/ IsEvent("Read") /\ Cur(T.f) /\ Read(T.k)
+  \/ IsEvent("Read") /\ Cur(T.f) /\ (Read(T.k) \/ (T.req = 1 /\ ReadTrail(T.k)))
   \/ IsEvent("FcntlOut") /\ FcntlOut(T.cmd, R(T.res))
   \/ IsEvent("OpenDir") /\ OpenDir(R(T.res))
   \/ IsEvent("UnlinkDst") /\ Cur(T.f) /\ UnlinkDst(R(T.res))
